@@ -40,13 +40,16 @@ fn expect_err(ctx: &mut Ctx, f: &Facts, what: &str, do_binary: bool, do_jax: boo
         }
     }
     if do_jax {
-        ctx.exec();
-        ctx.validated();
         let rendered = jax::render(f, &JaxOpts::default());
-        match jax::load(&rendered, false) {
-            Ok(Err(_)) => {}
-            Ok(Ok(_)) => ctx.violation("Ontology::from_standard", "succeeds although a root term is missing", json!({"facts": f.to_json(), "missing": what})),
-            Err(p) => ctx.violation("Ontology::from_standard", "panics instead of returning an error when a root term is missing", json!({"facts": f.to_json(), "missing": what, "observed": p})),
+        for transitive in [false, true] {
+            ctx.exec();
+            ctx.validated();
+            let site = if transitive { "Ontology::from_standard_transitive" } else { "Ontology::from_standard" };
+            match jax::load(&rendered, transitive) {
+                Ok(Err(_)) => {}
+                Ok(Ok(_)) => ctx.violation(site, "succeeds although a root term is missing", json!({"facts": f.to_json(), "missing": what})),
+                Err(p) => ctx.violation(site, "panics instead of returning an error when a root term is missing", json!({"facts": f.to_json(), "missing": what, "observed": p})),
+            }
         }
     }
 }
@@ -87,6 +90,12 @@ pub fn run(ctx: &mut Ctx) {
                         g.terms[k].obsolete = true;
                         g.terms[(k + 1) % n].replacement = Some(g.terms[k].id);
                         via_binary(ctx, &g, &EncOpts::v(3), "one term flagged obsolete, the next one replaced by it");
+                        // obsolete AND replaced on one linked term (the replacement sits in another position of the
+                        // graph): a term is classified by its own ancestors, not through its replacement
+                        let mut h = f.clone();
+                        h.terms[k].obsolete = true;
+                        h.terms[k].replacement = Some(h.terms[(k + n - 1) % n].id);
+                        via_binary(ctx, &h, &EncOpts::v(3), "one term flagged obsolete and replaced by the previous one");
                         if n <= 3 {
                             via_jax(ctx, &g, &JaxOpts::default(), false, "one term flagged obsolete, the next one replaced by it");
                         }
@@ -94,6 +103,7 @@ pub fn run(ctx: &mut Ctx) {
                 }
                 if n <= 3 {
                     via_jax(ctx, &f, &JaxOpts::default(), false, "canonical");
+                    via_jax(ctx, &f, &JaxOpts::default(), true, "canonical (transitive loader)");
                 }
                 // a root missing: same graph, the root's id replaced by an unrelated one
                 if n <= 4 || ctx.tier.thorough() {
@@ -133,8 +143,11 @@ pub fn run(ctx: &mut Ctx) {
             Mod,
             ClearMod,
             ClearCat,
+            /// seed a list with a foreign id through the public mutator (a setter REPLACES the list)
+            InsertMod,
+            InsertCat,
         }
-        let alpha = [Op::Cat, Op::Mod, Op::ClearMod, Op::ClearCat];
+        let alpha = [Op::Cat, Op::Mod, Op::ClearMod, Op::ClearCat, Op::InsertMod, Op::InsertCat];
         let mut seqs: Vec<Vec<Op>> = vec![vec![]];
         let mut frontier: Vec<Vec<Op>> = vec![vec![]];
         for _ in 0..3 {
@@ -151,7 +164,7 @@ pub fn run(ctx: &mut Ctx) {
         }
         for n in 2..=4usize {
             let dags = all_dags(n);
-            ctx.space(&format!("setters/D{n}/call-sequences"), &format!("{} labelled DAGs over {:?} (also with HP:1 / HP:118 replaced by an unrelated id) built with build_minimal x all {} sequences of length <= 3 over {{set_default_categories, set_default_modifier, modifier_mut().clear(), categories_mut().clear()}}: return values, both lists and every term's is_modifier / categories after every step", dags.len(), &POOLS[0][..n], seqs.len()));
+            ctx.space(&format!("setters/D{n}/call-sequences"), &format!("{} labelled DAGs over {:?} (also with HP:1 / HP:118 replaced by an unrelated id) built with build_minimal x all {} sequences of length <= 3 over {{set_default_categories, set_default_modifier, clearing either list, inserting the last term into either list through the public mutators}}: return values, both lists and every term's is_modifier / categories after every step", dags.len(), &POOLS[0][..n], seqs.len()));
             for d in &dags {
                 if !ctx.take() {
                     continue;
@@ -202,6 +215,9 @@ pub fn run(ctx: &mut Ctx) {
                                         }
                                         if ok {
                                             cur_cat = def_cat.clone();
+                                        } else {
+                                            // what a refused setter leaves in its list is not specified
+                                            cur_cat = ont.categories().iter().map(|i| i.as_u32()).collect();
                                         }
                                     }
                                     Op::Mod => {
@@ -211,6 +227,8 @@ pub fn run(ctx: &mut Ctx) {
                                         }
                                         if ok {
                                             cur_mod = def_mod.clone();
+                                        } else {
+                                            cur_mod = ont.modifier().iter().map(|i| i.as_u32()).collect();
                                         }
                                     }
                                     Op::ClearMod => {
@@ -220,6 +238,16 @@ pub fn run(ctx: &mut Ctx) {
                                     Op::ClearCat => {
                                         *ont.categories_mut() = hpo::term::HpoGroup::new();
                                         cur_cat.clear();
+                                    }
+                                    Op::InsertMod => {
+                                        let x = f.terms[f.terms.len() - 1].id;
+                                        ont.modifier_mut().insert(x);
+                                        cur_mod.insert(x);
+                                    }
+                                    Op::InsertCat => {
+                                        let x = f.terms[f.terms.len() - 1].id;
+                                        ont.categories_mut().insert(x);
+                                        cur_cat.insert(x);
                                     }
                                 }
                                 let got_mod: Vec<u32> = ont.modifier().iter().map(|i| i.as_u32()).collect();
